@@ -22,7 +22,7 @@ import sys
 from harness import core
 from harness import coqemit as E
 from harness.genmods import templates as T
-from harness.genmods.py2v import Tr as _Py2vTr
+from harness.genmods.py2v import Tr as _Py2vTr, _is_enum_base
 
 KNOWN_CLASSES = {"int": "K_int", "float": "K_float", "Decimal": "K_Decimal", "str": "K_str", "bool": "K_bool",
                  "list": "K_list", "deque": "K_deque", "tuple": "K_tuple", "set": "K_set",
@@ -255,6 +255,22 @@ class Chain:
             return "(CCmp %s %s %s)" % (o, self.val(e.left, sc), self.val(r, sc))
         if isinstance(e, ast.Call):
             f = e.func
+            if isinstance(f, ast.Name) and f.id == "isinstance" and len(e.args) == 2 and not e.keywords \
+                    and _is_enum_base(e.args[1]):
+                return "(CIsEnum %s)" % self.val(e.args[0], sc)      # isinstance(x, enum.Enum)
+            if isinstance(f, ast.Name) and f.id == "any" and len(e.args) == 1 and not e.keywords \
+                    and isinstance(e.args[0], ast.GeneratorExp):
+                # any(<x> is <v> for <v> in <container>): identity with one of the elements
+                g = e.args[0]
+                c = g.generators[0]
+                t = g.elt
+                if len(g.generators) != 1 or c.ifs or c.is_async or not isinstance(c.target, ast.Name) \
+                        or not (isinstance(t, ast.Compare) and len(t.ops) == 1 and isinstance(t.ops[0], ast.Is)
+                                and isinstance(t.comparators[0], ast.Name) and t.comparators[0].id == c.target.id) \
+                        or any(isinstance(n, ast.Name) and n.id == c.target.id for n in ast.walk(t.left)) \
+                        or any(isinstance(n, ast.Name) and n.id == c.target.id for n in ast.walk(c.iter)):
+                    raise Unsupported("any() other than any(<x> is <v> for <v> in <container>)")
+                return "(CAnyIs %s %s)" % (self.val(t.left, sc), self.val(c.iter, sc))
             if isinstance(f, ast.Name) and f.id == "isinstance" and len(e.args) == 2 and not e.keywords:
                 return "(CIsInst %s %s)" % (self.val(e.args[0], sc), E.lst(self.classes(e.args[1], sc)))
             if isinstance(f, ast.Name) and f.id == "getattr" and len(e.args) == 3 and isinstance(e.args[0], ast.Name) \
